@@ -126,14 +126,49 @@ class Check:
     def lean(self, modules: list[str], theorems: list[str], build_extra: list[str] | None = None,
              leanchecker: bool | None = None) -> bool:
         """Build the Lean modules, grep for escape hatches, `#print axioms` every theorem."""
+        self.gen_begin()
+        try:
+            return self._lean(modules, theorems, build_extra, leanchecker)
+        finally:
+            self.gen_end()
+
+    # lean/Gen/*.lean is regenerated from the tree under test and shared by all checks: regeneration + build are serialised
+    # across concurrently running checks (same tree: the files are rewritten only when their text changes, so nothing is
+    # rebuilt; different trees at the same time - VERIF_REPO, a maintenance convenience - are not supported beyond this)
+    _gen_lock = None
+
+    def gen_begin(self) -> None:
+        if Check._gen_lock is None:
+            import fcntl
+            WORK.mkdir(parents=True, exist_ok=True)
+            f = open(WORK / "gen.lock", "w")  # noqa: SIM115 - held until gen_end
+            fcntl.flock(f, fcntl.LOCK_EX)
+            Check._gen_lock = f
+
+    def gen_end(self) -> None:
+        if Check._gen_lock is not None:
+            Check._gen_lock.close()     # closing releases the flock
+            Check._gen_lock = None
+
+    def _lean(self, modules, theorems, build_extra, leanchecker) -> bool:
         ok = True
         targets = list(modules) + (build_extra or []) + [self.drv]
         cmd = ["lake", "build", *targets]
         self.checker_cmds.append("cd lean && " + " ".join(cmd))
         rc, log = run(cmd, cwd=LEAN, timeout=7200)
+        built = list(modules)
         if rc != 0:
             ok = False
             self.proof_failures.append("lake build failed: " + log[-3000:])
+            # which module is it?  build them one by one, so that the theorems of the others stay discharged and the report
+            # names the obligation that no longer checks (only freshly built modules are imported by the audit below)
+            built = []
+            for t in targets:
+                rc1, _ = run(["lake", "build", t], cwd=LEAN, timeout=7200)
+                if rc1 == 0 and t in modules:
+                    built.append(t)
+                elif rc1 != 0:
+                    self.proof_failures.append(f"lake build {t} failed")
         # grep for escape hatches in everything the theorems depend on (project-local)
         exe_roots = dict(re.findall(r'name = "(drv_\w+)"\s*\nroot = "([\w.]+)"', (LEAN / "lakefile.toml").read_text()))
         drv_roots = [self.drv_root] + [exe_roots[t] for t in (build_extra or []) if t in exe_roots]
@@ -151,11 +186,11 @@ class Check:
         # #print axioms
         audit = LEAN / "Audit" / f"{self.prop}.lean"
         audit.parent.mkdir(exist_ok=True)
-        body = "".join(f"import {m}\n" for m in modules) + "".join(f"#print axioms {t}\n" for t in theorems)
+        body = "".join(f"import {m}\n" for m in built) + "".join(f"#print axioms {t}\n" for t in theorems)
         audit.write_text(body)
         cmd2 = ["lake", "env", "lean", f"Audit/{self.prop}.lean"]
         self.checker_cmds.append("cd lean && " + " ".join(cmd2))
-        rc2, out = (1, "build failed") if rc != 0 else run(cmd2, cwd=LEAN, timeout=3600)
+        rc2, out = (1, "build failed") if not built else run(cmd2, cwd=LEAN, timeout=3600)
         found: dict[str, set[str]] = {}
         for m in re.finditer(r"'([^']+)' depends on axioms: \[([^\]]*)\]", out):
             found[m.group(1)] = {a.strip() for a in m.group(2).replace("\n", " ").split(",") if a.strip()}
@@ -165,7 +200,7 @@ class Check:
             if t in found:
                 bad = found[t] - ALLOWED_AXIOMS
                 self.trusted |= found[t]
-                good = not bad and rc == 0
+                good = not bad      # found => its module was built afresh in this run
                 if bad:
                     self.proof_failures.append(f"theorem {t} uses axioms {sorted(bad)}")
                 self.obligations.append({"name": t, "ok": good, "axioms": sorted(found[t])})
@@ -175,7 +210,7 @@ class Check:
                 self.obligations.append({"name": t, "ok": False, "axioms": None})
                 self.proof_failures.append(f"theorem {t} is not checked ({out[-400:].strip()})")
         if leanchecker if leanchecker is not None else (self.tier == "thorough"):
-            cmd3 = ["lake", "env", "leanchecker", *modules]
+            cmd3 = ["lake", "env", "leanchecker", *built]
             self.checker_cmds.append("cd lean && " + " ".join(cmd3))
             rc3, out3 = run(cmd3, cwd=LEAN, timeout=7200)
             self.extra["leanchecker"] = "ok" if rc3 == 0 else out3[-500:]
